@@ -36,8 +36,8 @@ TRUSTED_BASE = [
 ]
 ASSUMPTIONS = [
     "codec libraries are correct; the bytes a member is listed against are the bytes extractall(factory) delivers",
-    "reference-written archives exclude only the layouts of the two open C06 findings (no SubStreamsInfo; directory entries "
-    "without the directory attribute)",
+    "reference-written archives exclude only the layouts of the open C06 finding (directory entries without the directory "
+    "attribute)",
     "archiveinfo() is exercised on archives opened by path; FileInfo.compressed, ArchiveInfo.header_size/stat are "
     "outside C10's statement and not checked; timestamps of list() only through the model (carry-over quirk reported)",
 ]
@@ -292,7 +292,8 @@ REF_FEATURES = [None, None, None, "packpos", "partial_crc", "zero_folder", "part
 
 def case_ref(rng, special=None, feature=None):
     """a reference-written layout py7zr is expected to read: any folder partition, CRCs at sub-stream / folder level,
-    partially defined or absent, PackPos > 0, a folder without sub-streams, partially defined time/attribute vectors"""
+    partially defined or absent, PackPos > 0, a folder without sub-streams, partially defined time/attribute vectors,
+    no SubStreamsInfo at all (one member per folder, CRCs at folder level or absent)"""
     for _ in range(50):
         members = c06.gen_members(rng)
         if special == "nostreams":
@@ -318,7 +319,8 @@ def case_ref(rng, special=None, feature=None):
                                 "mtime": c06.FT + k, "attr": 0x20, "ctime": None, "atime": None})
         if special == "dupnames" and len(members) >= 2:
             members[-1]["name"] = members[0]["name"]
-        lay = c06.gen_layout(rng, members, feature if feature in ("packpos", "partial_crc", "zero_folder", "partial_vectors") else None)
+        lay = c06.gen_layout(rng, members, feature if feature in ("packpos", "partial_crc", "zero_folder", "partial_vectors",
+                                                                   "no_substreams") else None)
         if feature == "folder_crc":
             lay["crc"] = "folder"
         if special == "zero_nosize":
@@ -329,9 +331,9 @@ def case_ref(rng, special=None, feature=None):
             lay.pop("no_substreams", None)
             if lay.get("crc") in ("folder", "folder-partial"):
                 lay["crc"] = "substream"
-        # layouts py7zr still cannot read (known C06 findings) stay out: no SubStreamsInfo, directory entries without the
-        # directory attribute; an empty FILE carrying the directory attribute contradicts itself
-        if set(c06.classify(members, lay)) & {"no_substreams", "dir_without_dir_attribute", "emptyfile_with_dir_attribute"}:
+        # layouts py7zr still cannot read (known C06 findings) stay out: directory entries without the directory
+        # attribute; an empty FILE carrying the directory attribute contradicts itself
+        if set(c06.classify(members, lay)) & {"dir_without_dir_attribute", "emptyfile_with_dir_attribute"}:
             continue
         if special == "nameless":
             lay["header"] = "raw"
@@ -419,6 +421,9 @@ def gen_cases(rng, tier):
         cases.append(case_ref(rng, feature=REF_FEATURES[i % len(REF_FEATURES)]))
     for sp in ["nostreams", "empty", "slashdir", "dupnames", "nostreams", "slashdir", "dupnames", "nameless"]:
         cases.append(case_ref(rng, sp))
+    # archives without SubStreamsInfo: one member per folder, CRCs at folder level (all / every other one / none)
+    for i in range(16 if quick else 300):
+        cases.append(case_ref(rng, feature="no_substreams"))
     for i, c in enumerate(cases):
         c["idx"] = i
         c["fname"] = "arc%d.7z" % i
@@ -756,7 +761,7 @@ def run(ctx):
                        "2-3 append sessions with mixed chains (one folder each), writeall trees with directories / empty "
                        "files, raw and encoded headers, password supplied or not, the empty archive; (b) written by the "
                        "independent reference writer -- folder partitions, six chains, CRCs at sub-stream / folder level, partial "
-                       "or absent, PackPos > 0, a folder without sub-streams, partially defined time/attribute vectors, raw/LZMA header, kDummy, Unicode names, directories, empty files, names ending in "
+                       "or absent, PackPos > 0, a folder without sub-streams, no SubStreamsInfo, partially defined time/attribute vectors, raw/LZMA header, kDummy, Unicode names, directories, empty files, names ending in "
                        "'/', duplicate names, no main streams, no members).  Per archive: getnames, namelist, list, files, "
                        "getinfo (each name, name/, name//, namex, absent), archiveinfo, needs_password with/without password, "
                        "extractall(factory) and extractall(path), all compared with the reference reader's view and with the "
